@@ -81,7 +81,7 @@ func exactEvent(e *gostatsd.Event, given bool) string {
 
 func (c14) Run(e *Env) {
 	e.ProbeDecl("non-finite-value", "empty-tags", "empty-source", "same-set-name-two-tagsets", "sampled-timer", "event", "retry-after-5xx", "post-built-while-other-backs-off", "damaged-in-flight", "damaged-compressed-then-valid",
-		"damage-decoded-anyway", "lost-response-duplicate", "huge-values", "redirected-to-other-node", "very-large-flush", "body-cut-short", "body-cut-at-field-boundary", "unusual-sampled-count", "all-default-event")
+		"damage-decoded-anyway", "lost-response-duplicate", "huge-values", "redirected-to-other-node", "very-large-flush", "body-cut-short", "body-cut-at-field-boundary", "unusual-sampled-count", "all-default-event", "very-compressible-flush")
 	compType := []string{"none", "zlib", "lz4"}[e.Draw(3)]
 	level := e.Draw(10)
 	v := viper.New()
@@ -225,6 +225,17 @@ func (c14) Run(e *Env) {
 			}
 			oddName = ""
 		}
+		if e.Chance(1, 300) {
+			// one busy timer: tens of thousands of equal values, a payload that compresses several hundred to one
+			e.Probe("very-compressible-flush")
+			t := gostatsd.NewTimerValues(make([]float64, 60000))
+			for i := range t.Values {
+				t.Values[i] = 12
+			}
+			t.SampledCount = 60000
+			t.Timestamp = gostatsd.Nanotime(item)
+			mm.Timers["busy.timer"] = map[string]gostatsd.Timer{"": t}
+		}
 		if hugeLeft > 0 {
 			hugeLeft--
 			e.Probe("very-large-flush")
@@ -327,7 +338,12 @@ func (c14) Run(e *Env) {
 			_ = before
 			switch kind {
 			case 0: // clean delivery
-				fab.Gate.Release(p, HTTPOutcome{Kind: "serve"})
+				okOut := HTTPOutcome{Kind: "serve"}
+				if e.Chance(1, 6) {
+					okOut.BrokenResponseBody = true // accepted, then the connection breaks inside the response body
+					e.Fault("response-body-cut-after-2xx")
+				}
+				fab.Gate.Release(p, okOut)
 				e.Settle()
 				d := absorb()
 				if r.Status < 200 || r.Status > 299 {
